@@ -277,16 +277,16 @@ def _map_calls():
     out.update(bpf_LOOKUP=cl, bpf_UPDATE=cu, hv_key_size=ks, hv_value_size=vs, hv_key_len=kl1, hv_get_len=vl1, hv_set_len=vl2,
                hv_max_ordinal=256 ** kl1 - 1)
     K, _, _, _ = c10.run_impl({"possible": 2, "online": 2, "decl": {"kind": "dict", "key": ["H"], "value": ["B"], "size": 3, "lru": False},
-                               "calls": [["setitem", [1], [2]], ["pop", [1]], ["iter"], ["del", [1]]]})
+                               "calls": [["setitem", [1], [2]], ["pop", [1]], ["setitem", [1], [2]], ["iter"], ["del", [1]]]})
     cmds = [e[0] for e in K.log]
-    if len(cmds) != 5 or cmds[0] != cu or cmds[2] != cmds[3]:
+    if len(cmds) != 6 or cmds[0] != cu or cmds[2] != cu or cmds[3] != cmds[4]:
         raise ValueError("unexpected Dict probe")
-    out.update(dict_pop_cmd=cmds[1], bpf_NEXT_KEY=cmds[2], bpf_DELETE=cmds[4], bpf_LOOKUP_DELETE=21,
+    out.update(dict_pop_cmd=cmds[1], bpf_NEXT_KEY=cmds[3], bpf_DELETE=cmds[5], bpf_LOOKUP_DELETE=21,
                dict_default_size=Dict(None, None).size)
     K, _, _, _ = c10.run_impl({"possible": 3, "online": 3, "decl": {"kind": "percpu", "fmts": ["B"]}, "calls": [["read"]]})
     (_, _, ks, _, mx, _), = K.created
     out.update(arr_key_size=ks, arr_key_len=K.log[0][2], arr_max_entries=mx)
-    K, _, _, _ = c10.run_impl({"possible": 2, "online": 2, "decl": {"kind": "progarray"}, "calls": [["register", 0, True]]})
+    K, _, _, _ = c10.run_impl({"possible": 2, "online": 2, "decl": {"kind": "progarray"}, "calls": [["register", 0]]})
     (_, _, ks, vs, mx, _), = [m for m in K.created if m[1] == MapType.PROG_ARRAY.value]
     (c1, _, k1, v1, _), (c2, _, k2, v2, _), (c3, _, k3, _, _) = K.log
     if (c1, c2, c3) != (cl, cu, out["bpf_DELETE"]) or k1 != k2 or k2 != k3:
